@@ -30,6 +30,7 @@ LONG_BARE = ['https://example.org/' + '/'.join('component%02d' % i for i in rang
              '/opt/' + 'x' * 90]
 LONG_QUOTED = ['a long help text that keeps going ' * 4, 'word ' * 30 + 'end', 'https://example.org/' + 'p/' * 45,
                'well-known-hyphenated-words-' * 5 + 'x']
+LONG_PARAMS = ['the_%s_parameter_number_%d' % (w, i) for i, w in enumerate(['first', 'second', 'destination', 'source_directory', 'output', 'mode', 'verbosity_level', 'callback'])]
 IDENTS = ['f', 'g', 'my_fn', 'Klass', 'T1', 'outer', 'inner', 'n2', 'Mod_x', '_u', 'NAME1']
 GENERIC_NAMES = ['message', 'add_library', 'include', 'list', 'find_package', 'if_not', 'target_sources', 'unset',
                  'cpp_end_classx', 'functionx', 'endfunctionx', 'return', 'SET_PROPERTY', 'process_docs']
@@ -64,6 +65,7 @@ class Gen:
         self.idents = idents or IDENTS
         self.n_items = 0
         self.class_names = []       # names of the classes that are open where the next item is generated
+        self.member_names = []      # per open class: the member/constructor names declared in it so far (overloads reuse one)
 
     def class_ref(self):
         """the class an attribute/member says it belongs to: the enclosing one, an outer open one, or an unrelated name"""
@@ -305,6 +307,7 @@ class Gen:
         if k in ('func', 'macro'):
             kw = 'function' if k == 'func' else 'macro'
             toks = [self.tok(self.ident())] + [self.tok(forms='bqk') for _ in range(g.randint(0, 3))]
+            if g.random() < 0.06: toks = toks[:1] + [self.tok(p) for p in g.sample(LONG_PARAMS, g.randint(4, 7))]
             if mal and g.random() < 0.3: toks = []
             it = dict(k='block', doc=d, open=self.call(kw, toks, ind, cfirst, after_doc=d is not None),
                       body=self.items(depth + 1, False, False, False), close=self.call('end' + kw, [], ind))
@@ -327,6 +330,10 @@ class Gen:
             return dict(k='cmd', doc=d, call=self.call('option', toks, ind, cfirst, after_doc=d is not None))
         if k == 'add_test':
             nm = self.ident(); rest = [self.tok() for _ in range(g.randint(1, 3))]
+            if g.random() < 0.25:       # a parenthesised argument among the command's arguments (CMake hands "(", "a", "b", ")" to the command)
+                inner = [self.tok() for _ in range(g.randint(0, 3))]
+                if g.random() < 0.3: inner.insert(g.randint(0, len(inner)), ['G', [self.tok() for _ in range(g.randint(0, 2))]])
+                rest.insert(g.randint(0, len(rest)), ['G', inner])
             if g.random() < 0.3: rest.append(self.tok(nm))
             if g.random() < 0.2: rest.append(self.tok(g.choice(['name', 'Name', 'NAMES', 'xNAME'])))
             pos = g.randint(0, len(rest)); toks = rest[:pos] + [self.tok('NAME'), self.tok(nm)] + rest[pos:]
@@ -368,9 +375,9 @@ class Gen:
             cname_ = self.ident()
             toks = [self.tok(cname_)] + [self.tok(self.ident()) for _ in range(g.randint(0, 2))]
             if mal and g.random() < 0.3: toks = []
-            self.class_names.append(cname_)
+            self.class_names.append(cname_); self.member_names.append([])
             try: body = self.items(depth + 1, True, False, False)
-            finally: self.class_names.pop()
+            finally: self.class_names.pop(); self.member_names.pop()
             return dict(k='block', doc=d, open=self.call('cpp_class', toks, ind, cfirst, after_doc=d is not None),
                         body=body, close=self.call('cpp_end_class', [], ind))
         if k == 'attr':
@@ -379,11 +386,21 @@ class Gen:
             return dict(k='cmd', doc=d, call=self.call('cpp_attr', toks, ind, cfirst, after_doc=d is not None))
         if k in ('member', 'ctor'):
             cmd = 'cpp_member' if k == 'member' else 'cpp_constructor'
-            nm = self.ident(); types = [self.tok(g.choice(['int', 'str', 'desc', 'args', 'bool', 'T*'])) for _ in range(g.randint(0, 3))]
+            # overloads: CMakePP members are told apart by their types, so one class may declare a name several times (every
+            # constructor is conventionally called CTOR), adjacent or with other members in between, documented or not
+            seen = self.member_names[-1] if self.member_names else None
+            r = g.random()
+            if k == 'ctor' and r < 0.45: nm = 'CTOR'
+            elif seen and r < 0.75: nm = g.choice(seen)
+            else: nm = self.ident()
+            if seen is not None: seen.append(nm)
+            types = [self.tok(g.choice(['int', 'str', 'desc', 'args', 'bool', 'T*'])) for _ in range(g.randint(0, 3))]
             toks = [self.tok(nm), self.tok(self.class_ref())] + types
             if mal and g.random() < 0.5: toks = toks[:1]
             impl = g.choice(['function', 'macro'])
             itoks = [['q', '${' + nm + '}'], self.tok('self')] + [self.tok(g.choice(['x1', '_m_a', 'b', 'args', '"q"', 'a;b'])) for _ in range(g.randint(0, 4))]
+            if g.random() < 0.12:       # a signature longer than any line a renderer might want to fill
+                itoks = itoks[:2] + [self.tok(p) for p in g.sample(LONG_PARAMS, g.randint(4, 7))]
             if g.random() < 0.1: itoks = itoks[:g.randint(0, 2)]
             return dict(k='decl', doc=d, decl=self.call(cmd, toks, ind, cfirst, after_doc=d is not None),
                         impl=self.call(impl, itoks, ind), body=self.items(depth + 1, False, False, False),
@@ -485,6 +502,7 @@ def well_formed(m, documented_impl=False, positional=False):
                 if n == 'option' and not 2 <= len(s) <= 3: return 'option arity'
                 if n == 'cpp_attr' and (len(s) < 2 or not in_class): return 'attr'
                 if n == 'add_test':
+                    s = all_args(it['call'])        # every argument counts, parenthesised ones included (D19)
                     # positional=True also admits CMake's positional signature add_test(<name> <cmd> ...): an entry is due (C02), how it
                     # is headed is not prescribed (C11 speaks of "the argument following NAME")
                     if positional and len(s) >= 2 and s.count('NAME') == 0: pass
@@ -585,6 +603,7 @@ def spec_entries(m, cfg, reading='B'):
                     if documented or incl['option']:
                         out.append(dict(t='opt', name=s[0], doc=doc_text(d), help=s[1], val=s[2] if len(s) == 3 else None))
                 elif n == 'add_test':
+                    s = all_args(c)
                     if documented or incl['add_test']:
                         if 'NAME' in s: i = s.index('NAME'); out.append(dict(t='ctest', name=s[i + 1], doc=doc_text(d), params=s[:i] + s[i + 2:]))
                         else: out.append(dict(t='ctest', name='', doc=doc_text(d), params=list(s), loose=True))      # heading not prescribed
